@@ -43,6 +43,11 @@ def userinfoOf (s : String) : Option (Option Userinfo) :=
   tlsload <--tls-cert-file raw hex> <--tls-key-file raw hex>          (`_` = flag not given)
       → `ok <cert hex> <key hex>`   the cert and key attributes of the debug record "loading TLS certificate"
       → `none`                      neither flag given: the record is not written
+  pacproxy <string returned by FindProxyForURL: hex> <--credentials raw values: hex list>
+      → `err <hex>`                 pacProxy fails the request with this error text
+      → `direct`
+      → `via <scheme hex> <host:port hex> <user hex|-> <password hex|->`   the proxy URL handed on (with the
+                                    userinfo of the matching --credentials entry)
 -/
 def handle : List String → String
   | ["describe", fmt, flag, raws] =>
@@ -70,6 +75,21 @@ def handle : List String → String
       match tlsLoadAttrs c k with
       | some a => s!"ok {hexOfBytes a.cert} {hexOfBytes a.key}"
       | none => "none"
+    | _, _ => "bad-op"
+  | ["pacproxy", result, raws] =>
+    match bytesOfHex result, bytesList raws with
+    | some r, some rs =>
+      match mapOpt parseHostPortUser rs with
+      | none => "bad-op"
+      | some t =>
+        match pacProxy t r with
+        | .error e => s!"err {hexOfBytes e}"
+        | .direct => "direct"
+        | .via u =>
+          let opt (x : Option Bytes) : String := match x with
+            | some b => hexOfBytes b
+            | none => "-"
+          s!"via {hexOfBytes u.scheme} {hexOfBytes u.host} {opt (u.user.map (·.user))} {opt (u.user.bind (·.pass))}"
     | _, _ => "bad-op"
   | ["absent", secret, text] =>
     match bytesOfHex secret, bytesOfHex text with
